@@ -67,7 +67,7 @@ def nontrivial_path(idx):
     return len(idx) >= 3 or len(kinds) == 2
 
 
-def same_priv(node, hd, bucket, network):
+def same_priv(node, hd, bucket, network, versions=None):
     require(hd.private_key.secret == node.k, bucket + "/secret")
     require((hd.private_key.point.x.num, hd.private_key.point.y.num) == node.K, bucket + "/point")
     require(hd.chain_code == node.c, bucket + "/chain_code")
@@ -75,20 +75,24 @@ def same_priv(node, hd, bucket, network):
     require(hd.child_number == node.num, bucket + "/child_number")
     require(hd.parent_fingerprint == node.fpr, bucket + "/parent_fingerprint")
     require(hd.fingerprint() == node.fingerprint(), bucket + "/fingerprint")
-    require(hd.xprv() == node.xprv(bytes.fromhex(DEFAULT_PRV[network])), bucket + "/xprv")
-    require(hd.xpub() == node.xpub(bytes.fromhex(DEFAULT_PUB[network])), bucket + "/xpub")
+    vprv, vpub = versions or (bytes.fromhex(DEFAULT_PRV[network]), bytes.fromhex(DEFAULT_PUB[network]))
+    require(hd.xprv() == node.xprv(vprv), bucket + "/xprv", f"{hd.xprv()[:8]}.. version {vprv.hex()}")
+    require(hd.xpub() == node.xpub(vpub) == hd.pub.xpub(), bucket + "/xpub",
+            f"{hd.xpub()[:8]}.. / {hd.pub.xpub()[:8]}.. version {vpub.hex()}")
 
 
-def same_pub(node, hp, bucket, network):
+def same_pub(node, hp, bucket, network, versions=None):
     require((hp.point.x.num, hp.point.y.num) == node.K, bucket + "/point")
     require(hp.chain_code == node.c and hp.depth == node.depth and hp.child_number == node.num
             and hp.parent_fingerprint == node.fpr, bucket + "/fields")
-    require(hp.xpub() == node.xpub(bytes.fromhex(DEFAULT_PUB[network])), bucket + "/xpub")
+    vpub = versions[1] if versions else bytes.fromhex(DEFAULT_PUB[network])
+    require(hp.xpub() == node.xpub(vpub), bucket + "/xpub", f"{hp.xpub()[:8]}.. version {vpub.hex()}")
 
 
 def derive_cases(tier):
     return st.fixed_dictionaries({
         "seed": seeds(), "network": st.sampled_from(NETWORKS),
+        "vi": st.one_of(st.none(), st.integers(0, 4)),  # SLIP-132 version pair given to from_seed
         "path": st.lists(indexes(), min_size=1, max_size=8),
     })
 
@@ -100,16 +104,24 @@ def check_derive(case, ctx):
         node = bip32.Node.master(seed)
     except ValueError:
         raise Discard("invalid master")
-    hd = must(HDPrivateKey.from_seed, "derive/from_seed", seed, network=net)
-    same_priv(node, hd, "derive/master", net)
+    versions = None
+    if case.get("vi") is not None:
+        prvs, pubs = (MAIN_PRV, MAIN_PUB) if net == "mainnet" else (TEST_PRV, TEST_PUB)
+        versions = (bytes.fromhex(prvs[case["vi"]]), bytes.fromhex(pubs[case["vi"]]))
+        ctx.label("slip132_versions_from_seed")
+        hd = must(HDPrivateKey.from_seed, "derive/from_seed", seed, network=net, priv_version=versions[0],
+                  pub_version=versions[1])
+    else:
+        hd = must(HDPrivateKey.from_seed, "derive/from_seed", seed, network=net)
+    same_priv(node, hd, "derive/master", net, versions)
     for d, i in enumerate(idx):
         child_node = node.ckd_priv(i)
         child = must(hd.child, "derive/child", i)
-        same_priv(child_node, child, "derive/node", net)
+        same_priv(child_node, child, "derive/node", net, versions)
         if i < HARD:
             ctx.label("unhardened_step")
             pub_child = must(hd.pub.child, "derive/pub_child", i)
-            same_pub(node.neuter().ckd_pub(i), pub_child, "derive/public_derivation", net)
+            same_pub(node.neuter().ckd_pub(i), pub_child, "derive/public_derivation", net, versions)
             require(pub_child.xpub() == child.pub.xpub() == child.xpub(), "derive/pub_priv_mismatch")
         else:
             ctx.label("hardened_step")
@@ -350,7 +362,7 @@ SUBS = [
     Sub("derive_differential", check_derive, strategy=derive_cases,
         budget={"quick": 400, "thorough": 15000},
         required=["hardened_step", "unhardened_step", f"index_edge:{HARD - 1}", f"index_edge:{HARD}",
-                  f"index_edge:{2**32 - 1}", "index_edge:0", "depth=8"],
+                  f"index_edge:{2**32 - 1}", "index_edge:0", "depth=8", "slip132_versions_from_seed"],
         nontrivial_rule="path crossing the hardened boundary or depth >= 3"),
     Sub("path_composition", check_compose, strategy=compose_cases,
         budget={"quick": 260, "thorough": 10000},
